@@ -75,21 +75,16 @@ def fnReciprocalRank (a : Args) : Except Err String := do
   let k ← liftP (kOf a); let r ← rrStat k a; pure (showVecQ r)
 
 /-- textbook hit rate / reciprocal rank on valid inputs (rank by explicit sorting). -/
-def specRanks (a : Args) : Except Err (List Nat) := do
+def specRankFn (f : Option Nat → List (List Q) → List Int → Option (List Q)) (a : Args) : Except Err String := do
+  let k ← liftP (kOf a)
   let (i, t) ← io a
   let tg ← liftP (ints t.data)
-  (i.rows.zip tg).mapM fun (p : List Q × Int) =>
-    if p.2 < (0 : Int) then .error .other else
-    match Spec.Rank.rankOf p.1 p.2.toNat with
-    | some r => .ok r
-    | none => .error .other
+  match f (natOfK k) i.rows tg with
+  | some r => pure (showVecQ r)
+  | none => throw .other
 
-def specHitRate (a : Args) : Except Err String := do
-  let k ← liftP (kOf a); let rs ← specRanks a
-  pure (showVecQ (rs.map (Spec.Rank.hit (natOfK k))))
-def specReciprocalRank (a : Args) : Except Err String := do
-  let k ← liftP (kOf a); let rs ← specRanks a
-  pure (showVecQ (rs.map (Spec.Rank.rr (natOfK k))))
+def specHitRate : Args → Except Err String := specRankFn Spec.Rank.hitRate
+def specReciprocalRank : Args → Except Err String := specRankFn Spec.Rank.reciprocalRank
 
 /-! retrieval precision / recall (functional) -/
 
